@@ -9,6 +9,6 @@ git -C /repo worktree add -q "$W" HEAD
 (cd /repo && git status --short | awk '{print $2}' | grep '_verif.go$' | while read f; do mkdir -p "$W/$(dirname $f)"; cp "/repo/$f" "$W/$f"; done) || true
 git -C "$W" apply "$P"
 for prop in "$@"; do
-  GOVC_REPO="$W" GOVC_HOME=/verif /verif/bin/govc check "$prop" 2>&1 | grep -E "VIOLATION|KNOWN-FINDING|ENGINE|\[quick\]" | sed -E 's/replay=[^ ]+ //' | cut -c1-260 | tail -8
+  GOVC_REPO="$W" GOVC_HOME=/verif GOVC_NOEVIDENCE=1 /verif/bin/govc check "$prop" 2>&1 | grep -E "VIOLATION|KNOWN-FINDING|ENGINE|\[quick\]" | sed -E 's/replay=[^ ]+ //' | cut -c1-260 | tail -8
 done
 git -C /repo worktree remove --force "$W"
